@@ -29,6 +29,10 @@ claim("C04", "call-chain funnel over resolved callers to an effect-defined inval
       "Decides C04.1 (every way to remove a sessions row passes through a function that releases/deletes held keys and removes check links and session-bound queries), C04.2 (node delete, check delete, critical check each feed linked sessions to the invalidator on every successful local path), C04.3 (acquire only below session-exists and absent/unheld/same-holder edges; release only below holder==requester), C04.4 (TTL expiry goes through raftApply). Does not decide the reachable-state invariant over histories.",
       "DESIGN.md section 3 C04")
 
+claim("C05", "edge-cut guard of Commit by the dispatch result; who-may-call closure over the dispatch loop (no transaction lifecycle calls, receivers are parameters, no escaping effects outside tx.Defer); must-flow ordering inside txn.Commit; path-sensitive nil-flow from the not-applied edge of each conditional verb; registry agreement of accepted vs handled verbs",
+      "Decides C05.1-C05.7: commit only below the no-errors edge with deferred abort; one transaction for everything below the dispatch loop (reads included); no effects that survive an abort except through tx.Defer (lock-delay timer listed); usage/events computed before, publish after, the memdb commit under commitLock; read-only path uses a read transaction; not-applied verbs become errors; every accepted verb has a handler. Library abort semantics are trusted.",
+      "DESIGN.md section 3 C05")
+
 NA_REASON = {}
 
 checks = []
